@@ -252,6 +252,10 @@ def call_class(I, c, args, kwargs, fr, node):
         return VTuple(I.concrete_items(args[0]))
     if n == 'type':
         v = args[0]
+        if isinstance(v, VInt):
+            return VClass('int')
+        if isinstance(v, VObj) and ctx.heap[v.oid].kind == 'list':
+            return VClass('list')
         if isinstance(v, VStr):
             return VClass('bytes' if v.kind == 'b' else 'str')
         if isinstance(v, VObj):
